@@ -160,7 +160,12 @@ def ite(c, a, b):
     sort = a.sort if type(a) is Node else (b.sort if type(b) is Node else None)
     if sort == 'I' or (sort is None and type(a) is int):
         w = a.width if type(a) is Node else b.width
-        return mk('ite', (c, I(a, w), I(b, w)), 'I', w)
+        a = I(a, w); b = I(b, w)
+        n = mk('ite', (c, a, b), 'I', w)
+        if getattr(n, 'lo', None) is None and getattr(a, 'lo', None) is not None and getattr(b, 'lo', None) is not None:
+            n.lo = min(a.lo, b.lo)
+            n.hi = max(a.hi, b.hi) if (a.hi is not None and b.hi is not None) else None
+        return n
     if sort == 'B':
         return bor(band(c, a), band(bnot(c), b))
     return mk('ite', (c, R(a), R(b)), 'R')
